@@ -19,7 +19,7 @@ RULE = ("cases = (nested settings tree with underscore-/case-bearing keys so tha
         "one variable of the environment names an existing setting or two settings collide; distinct = distinct "
         "(tree, environment, prefix) triples; plus HISTORIES on one Config object: 2-4 load_shell_env() calls under changing "
         "environments (variables added / changed / removed / all removed), interleaved with load_defaults / load_overrides / "
-        "load_collection (different content or {}), attribute writes and clone(); the property is evaluated after every load for "
+        "load_collection (different content or {}, with merge=True or deferred merge=False, explicit merge()), attribute writes and clone(); the property is evaluated after every load for "
         "the environment of that moment")
 TRUSTED = ["Lean 4.33 kernel", "axioms propext/Classical.choice/Quot.sound only",
            "harness/props/c16.py + harness/valcodec.py correspondence and canonicalisation",
@@ -426,13 +426,18 @@ def gen_history(rng):
     ops = [{"op": "defaults", "tree": tag(levels["defaults"])}]
     prev = None
     for i in range(rng.choice([2, 2, 3, 3, 4])):
-        for _ in range(rng.choice([0, 0, 1, 1, 2]) if i else rng.choice([0, 1])):
+        for _ in range(rng.choice([0, 1, 1, 2, 2]) if i else rng.choice([0, 1, 1, 2])):
             r = rng.random()
             if r < 0.5:
                 lvl = rng.choice(["defaults", "collection", "collection", "overrides"])
                 t = {} if rng.random() < 0.2 else variant(rng, master, rng.choice([0.4, 0.7, 0.9]))
                 levels[lvl] = t
-                ops.append({"op": lvl, "tree": tag(t)})
+                op = {"op": lvl, "tree": tag(t)}
+                if rng.random() < 0.4:
+                    op["merge"] = False  # deferred merging: the merged cache stays stale until something merges
+                ops.append(op)
+            elif r < 0.55:
+                ops.append({"op": "merge"})
             elif r < 0.8:
                 lv = list(leaves(master))
                 p, v = rng.choice(lv)
@@ -487,12 +492,10 @@ def run_history(case):
                     obs.append((None, plain(c)))
                 elif kind == "defaults" and c is None:
                     c = klass(defaults=build(op["tree"]), system_prefix=NOWHERE, user_prefix=NOWHERE + ".", lazy=True)
-                elif kind == "defaults":
-                    c.load_defaults(build(op["tree"]))
-                elif kind == "collection":
-                    c.load_collection(build(op["tree"]))
-                elif kind == "overrides":
-                    c.load_overrides(build(op["tree"]))
+                elif kind in ("defaults", "collection", "overrides"):
+                    getattr(c, "load_" + kind)(build(op["tree"]), **({"merge": False} if op.get("merge") is False else {}))
+                elif kind == "merge":
+                    c.merge()
                 elif kind == "write":
                     write_path(c, op["path"], build(op["value"]))
                 elif kind == "clone":
@@ -571,8 +574,23 @@ def history_line(case):
             mods = overlay(mods, _nest(op["path"], build(op["value"])))
             parts.append("m=" + enc_tree(mods))
         elif kind in LEVEL_CODE:
-            parts.append(LEVEL_CODE[kind] + "=" + enc_tree(build(op["tree"])))
+            parts.append(LEVEL_CODE[kind] + ("u" if op.get("merge") is False else "") + "=" + enc_tree(build(op["tree"])))
+        elif kind == "merge":
+            parts.append("g")
     return " ".join(parts)
+
+
+def master_view(case, upto):
+    """the other levels merged, as they are when the operation `upto` runs"""
+    levels = {"defaults": {}, "collection": {}, "overrides": {}, "modifications": {}}
+    for op in case["ops"]:
+        if op is upto:
+            break
+        if op["op"] in levels:
+            levels[op["op"]] = build(op["tree"])
+        elif op["op"] == "write":
+            levels["modifications"] = overlay(levels["modifications"], _nest(op["path"], build(op["value"])))
+    return merged(levels, {})
 
 
 def history_has_opaque(case):
@@ -663,6 +681,18 @@ def run(ctx):
             rel = lambda e: {k for k in e if k.startswith(P) and k != P + "NOT_A_SETTING"}  # noqa: E731
             out.hist["history_env_change:" + ("same" if a == b else "all_removed" if rel(a) and not rel(b) else
                                               "removed" if rel(a) - rel(b) else "added_or_changed")] += 1
+        stale, env_nonempty = False, False
+        for op in c["ops"]:
+            k = op["op"]
+            if k in LEVEL_CODE and k != "modifications":
+                stale = op.get("merge") is False
+            elif k in ("merge", "write", "clone"):
+                stale = False
+            elif k == "env":
+                out.hist["history_load_on:%s_cache,env_level_%s" % ("stale" if stale else "fresh", "nonempty" if env_nonempty else "empty")] += 1
+                lvls = {P + var_of(p) for p, _ in leaves(master_view(c, op))}
+                env_nonempty = any(x in op["environ"] for x in lvls)
+                stale = False
         if obs and obs[-1][0] and not obs[-1][0].startswith("crash:"):
             out.hist["history_ended_by:" + obs[-1][0]] += 1
         if m is not None and not history_has_opaque(c) and not (why is None and st["loads"] < len(obs)):
